@@ -878,6 +878,9 @@ func (e *Engine) evalCall(st *State, env *cenv, x *CExpr) (Val, error) {
 		ok := false
 		if env.fr != nil {
 			_, ok = env.fr.names[args[0].Name]
+			if c, has := env.fr.nameDef[args[0].Name]; ok && has {
+				return Val{K: KBool, T: c}, nil
+			}
 		}
 		if _, isVar := env.vars[args[0].Name]; isVar {
 			ok = true
